@@ -431,7 +431,7 @@ func TestGoRunCellsIsolation(t *testing.T) {
 		}
 		for _, k := range []string{"DEC:m0.s0", "DEC:m0.s1"} {
 			d := o(k)
-			if d.Kind != "DEC" || d.Pos != len(wire)/2 || d.Hex != wire || d.Tree == nil {
+			if d.Kind != "DEC" || d.Pos != len(wire)/2 || d.Hex != wire || d.Tree() == nil {
 				t.Errorf("good[%d] %s: %+v", i, k, d)
 				continue
 			}
